@@ -22,6 +22,23 @@ Definition r2d : R := 180 / PI.      (* RAD2DEG *)
 Definition d2r : R := PI / 180.      (* DEG2RAD *)
 Definition dt100 : R := 1 / 100.     (* 1 / frequency of the traced instances *)
 
+(* what QuaternionArray.to_angles returns for one row: roll, pitch, yaw *)
+Definition rpy_of (q : list R) : list R :=
+  let w := e q 0 in let x := e q 1 in let y := e q 2 in let z := e q 3 in
+  [atan2 (2 * (w*x + y*z)) (1 - 2 * (x*x + y*y)); asin (2 * (w*y - z*x)); atan2 (2 * (w*z + x*y)) (1 - 2 * (y*y + z*z))].
+
+(* QuaternionArray.from_rpy for one row: q = qZ(yaw) qY(pitch) qX(roll) *)
+Definition q_of_rpy (ro pi ya : R) : list R :=
+  let cy := cos (ya / 2) in let sy := sin (ya / 2) in let cp := cos (pi / 2) in let sp := sin (pi / 2) in
+  let cr := cos (ro / 2) in let sr := sin (ro / 2) in
+  [cy*cp*cr + sy*sp*sr; cy*cp*sr - sy*sp*cr; sy*cp*sr + cy*sp*cr; sy*cp*cr - cy*sp*sr].
+
+(* elementary rotations and the aerospace sequence R = Rz(yaw) Ry(pitch) Rx(roll) *)
+Definition Rx (a : R) : list R := [1;0;0; 0;cos a;- sin a; 0;sin a;cos a].
+Definition Ry (a : R) : list R := [cos a;0;sin a; 0;1;0; - sin a;0;cos a].
+Definition Rz (a : R) : list R := [cos a;- sin a;0; sin a;cos a;0; 0;0;1].
+Definition Rzyx (ro pi ya : R) : list R := mmul3 (Rz ya) (mmul3 (Ry pi) (Rx ro)).
+
 (* gyroscope bias: Pdeg = ptp of the noise-free rates in deg/s of a three-row trajectory (w_0 = 0: the three zeros of
    row 0 enter as one 0); the bias drawn is (u - 1/2) Pdeg / 200 deg/s; in radians mode the code multiplies it by
    DEG2RAD twice - before adding it to the deg/s signal and again with the signal *)
